@@ -11,6 +11,9 @@ Inductive expr :=
 | Var (i : nat)                       (* i-th parameter of the enclosing form *)
 | Const (q : Q)
 | Add (a b : expr) | Sub (a b : expr) | Mul (a b : expr)
+| Un (f : Q -> Q) (a : expr)                          (* a built-in unary function or operator, e.g. -x, x^2, floor *)
+| Bin (f : Q -> Q -> Q) (a b : expr)                  (* a built-in binary operator or function, e.g. x / y *)
+| Tern (f : Q -> Q -> Q -> Q) (a b c : expr)          (* if(c, a, b) *)
 | Call (j : nat) (args : exprs)       (* another potential form *)
 with exprs := ENil | ECons (e : expr) (es : exprs).
 
@@ -27,6 +30,9 @@ Fixpoint eval (cs : list callee) (self : nat) (e : expr) (s : state) : Q * state
   | Add a b => let '(x, s1) := eval cs self a s in let '(y, s2) := eval cs self b s1 in (x + y, s2)
   | Sub a b => let '(x, s1) := eval cs self a s in let '(y, s2) := eval cs self b s1 in (x - y, s2)
   | Mul a b => let '(x, s1) := eval cs self a s in let '(y, s2) := eval cs self b s1 in (x * y, s2)
+  | Un f a => let '(x, s1) := eval cs self a s in (f x, s1)
+  | Bin f a b => let '(x, s1) := eval cs self a s in let '(y, s2) := eval cs self b s1 in (f x y, s2)
+  | Tern f a b c => let '(x, s1) := eval cs self a s in let '(y, s2) := eval cs self b s1 in let '(z, s3) := eval cs self c s2 in (f x y z, s3)
   | Call j args =>
       let '(vals, s1) := eval_args cs self args s in
       match nth_error cs j with
@@ -59,6 +65,9 @@ Fixpoint den (ds : list pure) (env : list Q) (e : expr) : Q :=
   | Add a b => den ds env a + den ds env b
   | Sub a b => den ds env a - den ds env b
   | Mul a b => den ds env a * den ds env b
+  | Un f a => f (den ds env a)
+  | Bin f a b => f (den ds env a) (den ds env b)
+  | Tern f a b c => f (den ds env a) (den ds env b) (den ds env c)
   | Call j args => match nth_error ds j with Some d => d (den_args ds env args) | None => 0 end
   end
 with den_args (ds : list pure) (env : list Q) (es : exprs) : list Q :=
@@ -77,7 +86,9 @@ Definition build_pure (bodies : list expr) : list pure := den_from bodies [].
 Fixpoint wf (n : nat) (e : expr) : Prop :=
   match e with
   | Var _ | Const _ => True
-  | Add a b | Sub a b | Mul a b => wf n a /\ wf n b
+  | Add a b | Sub a b | Mul a b | Bin _ a b => wf n a /\ wf n b
+  | Un _ a => wf n a
+  | Tern _ a b c => wf n a /\ wf n b /\ wf n c
   | Call j args => (j < n)%nat /\ wf_args n args
   end
 with wf_args (n : nat) (es : exprs) : Prop :=
